@@ -20,6 +20,43 @@ CLAIMS = {
             "before the first). Tie to the code: bit-exact correspondence of the extracted model with "
             "ControlPoints::add/*_point_at on exhaustive small-alphabet and random histories, plus a linear-scan oracle.",
             "§6 C13"),
+    "C10": ("Unbounded theorems (coq/Properties/C10.v, axiom-free): UTF-8 / UTF-16LE / UTF-16BE codec round trips for every "
+            "scalar string; unpaired surrogates become U+FFFD; the hand-written lossy loop of encoding.rs equals a one-pass "
+            "lossy_spec automaton for ALL byte lists (never out of fuel; the unchecked prefix always validates) and is "
+            "local to the line (lossy (a++[LF]++b) = lossy a ++ [LF] ++ lossy b); the four encodings of a text give the "
+            "same lines for every faultless schedule outside the recorded classes D4/D5/D6 (each refuted with a witness). "
+            "Tie to the code: bit-exact correspondence of Encoding::decode, std from_utf8 error positions, decode_utf16, "
+            "from_bom and the LineDecoder line stream; oracle: same Beatmap in all four encodings, per-line "
+            "from_utf8_lossy / from_utf16_lossy, every scalar value as Title content (thorough).",
+            "§6 C10"),
+    "C08": ("Unbounded theorems (coq/Properties/C08.v, axiom-free): the BufRead contract as an explicit schedule of chunks, "
+            "Interrupted and failures; read_until / read_exact / read_bom / read_line transcribed; for any two faultless "
+            "schedules with a good start (first non-empty chunk >= 3 bytes or the whole stream) read_all_lines gives the "
+            "same lines = decode_stream bytes; Interrupted is transparent for all schedules; never a panic, fuel "
+            "sufficient. The unrestricted statement is refuted with a witness (D4: read_bom discards chunks shorter than "
+            "3 bytes). Tie to the code: a schedule-driven BufRead under LineDecoder, fixed chunk sizes 1..64, random "
+            "schedules, Interrupted placements; oracle: schedule reader / BufReader capacities 1..16 / from_str / "
+            "from_path / dribbling Read all equal from_bytes.",
+            "§6 C08"),
+    "C09": ("Unbounded theorems (coq/Properties/C09.v, axiom-free): a hard failure reached by the reader schedule is returned "
+            "(never Done), since the driver reads to EOF; Interrupted transparent; writer side for an arbitrary chunk list: "
+            "any failure or Ok(0) before everything is accepted yields the error (WriteZero for Ok(0)), no write is issued "
+            "after the first failure, the accepted bytes are a prefix, short writes and Interrupted are retried, flush "
+            "failure returned, never a panic. Tie to the code: error of each of 5 kinds at every byte offset of bundled "
+            "files under the schedule reader; Beatmap::encode into a schedule Write with failure / zero-length / short "
+            "writes at every output offset, the recorded chunk sequence replayed through the model.",
+            "§6 C09"),
+    "C15": ("Unbounded theorems (coq/Properties/C15.v), for ANY curve-distance function: the processed object list carries the "
+            "start times of the STABLE sort of the file-order list (permutation, ordered, equal keys keep file order), same "
+            "length; break post-processing only sets new-combo flags (never on holds), consumes exactly the breaks that "
+            "ended before the object, and with chronologically ordered breaks forces the first object after a break; "
+            "sliders get velocity = 100*SM/(beat_len*clamp(100/sv)/100) literally, duration = spans*dist/velocity, node "
+            "and object samples from the sample point 5 ms after each node / the end by the SamplePoint::apply rules; "
+            "constants pinned. PARTIAL: shift invariance (T15d) is not proved, only tested by the oracle on integer times "
+            "and shifts. Tie to the code: implementation-side oracle written from the property text (stable order incl. "
+            ">20 ties, breaks, closed-form velocity/duration, sample defaults, shifts in [-1e6,1e6]); correspondence of the "
+            "decoder models on the same files.",
+            "§6 C15"),
     "C11": ("Unbounded theorems (coq/Properties/C11.v): each of the six section parsers equals a table-driven "
             "specification written from the property text, for every state and line (key table, conversion, field); "
             "rejected or unknown records leave the state untouched; last valid occurrence wins (generic fold lemma); "
@@ -90,7 +127,7 @@ def main():
             "enable": "harness/Cargo.toml depends on rosu-map with features=[\"verif-hooks\"]",
             "baseline_off_cmd": "cd /repo && cargo test --workspace --no-fail-fast --offline",
             "source_commits": ["f0db42e"],
-            "fix_commits": ["9215ca2", "26f4d98"],
+            "fix_commits": ["9215ca2", "26f4d98", "738fe2f", "4262585", "d78b06a"],
             "add_only": True,
         },
         "engines": [{
